@@ -395,6 +395,12 @@ def _judge(c, r):
         return _judge_table(c, r)
     if c['kind'] == 'expr':
         if 'outside' in r:
+            if r.get('deep_equal') is False:
+                return Failure('dtype-differs-from-ir-type:outside-model', 'a program outside the modelled subset: the type the front end reports is not the '
+                               'type recomputed from the IR it emitted', c, (r.get('types') or [None])[0], {'types': r.get('types'), 'ir': r.get('text')})
+            if 'deep_exc' in r and any(w in ('compute_type', '_compute_type', 'assign_type') for w in r['deep_exc'].get('where', [])):
+                return Failure('deep-typecheck-fails:outside-model', 'a program outside the modelled subset: recomputing the IR\'s type from scratch fails',
+                               c, None, {**r['deep_exc'], 'ir': r.get('text')})
             return None
         if 'rejected' in r:
             if r['rejected'] == 'AssertionError' and any(w in ('assign_type', 'compute_type') for w in r.get('where', [])):
